@@ -91,7 +91,12 @@ class CircWorld(StateWorld):
 
     def _probe(self, rng):
         n = self.n
-        t = rng.choice(["pauli", "list", "list", "map", "state", "state"])
+        t = rng.choice(["pauli", "list", "list", "map", "state", "state"] + (["poly"] if self.S.name == "numpy" else []))
+        if t == "poly":
+            L = rng.randrange(1, 5)
+            return {"ptype": "poly", "items": [rm.pstr((rm.rand_letters(rng, n, False), rng.randrange(4)))
+                                               for _ in range(L)],
+                    "cs": [[rng.choice([1.0, -0.5, 2.0]), rng.choice([0.0, 1.5])] for _ in range(L)]}
         if t == "pauli":
             return {"ptype": "pauli", "item": rm.pstr((rm.rand_letters(rng, n, False), rng.randrange(4)))}
         if t == "list":
@@ -343,6 +348,13 @@ class CircWorld(StateWorld):
                     big += [r, junk]
                 return self.S.mk_list(big)[::2], rs, "list"
             return self.S.mk_list(rs), rs, "list"
+        if t == "poly":
+            rs = sut.parse_list(p["items"])
+            if any(len(r[0]) != n for r in rs) or self.S.name != "numpy":
+                raise Skip()
+            lst = self.S.mk_list(rs)
+            obj = pc.PauliPolynomial(lst.gs, lst.ps).set_cs(np.array([complex(*c) for c in p["cs"]], dtype=np.complex128))
+            return obj, (rs, [complex(*c) for c in p["cs"]]), "poly"
         if t == "map":
             rs = sut.parse_list(p["images"])
             if len(rs) != 2 * n or any(len(r[0]) != n for r in rs):
@@ -367,6 +379,8 @@ class CircWorld(StateWorld):
             return pc.PauliList(S.clone(obj.gs), S.clone(obj.ps))
         if kind == "map":
             return pc.CliffordMap(S.clone(obj.gs), S.clone(obj.ps))
+        if kind == "poly":
+            return pc.PauliPolynomial(S.clone(obj.gs), S.clone(obj.ps)).set_cs(np.array(obj.cs).copy())
         return S.mk_state(obj.gs, obj.ps, obj.r)
 
     def observe(self, obj, kind):
@@ -374,6 +388,9 @@ class CircWorld(StateWorld):
             return [sut.pauli_to_ref(obj)]
         if kind in ("list", "map"):
             return sut.list_to_ref(obj)
+        if kind == "poly":
+            # a polynomial is its term list: strings/phases transform, coefficients are untouched
+            return (sut.list_to_ref(obj), [complex(c) for c in obj.cs])
         return rm.alpha(obj.gs, obj.ps, obj.r, self.n)
 
     def predict(self, val, kind, gates, direction="fwd"):
@@ -383,6 +400,9 @@ class CircWorld(StateWorld):
             for rg in seq:
                 m = m.apply_map(rg.fwd if direction == "fwd" else rg.bwd, rg.qubits)
             return m
+        if kind == "poly":
+            terms, cs = val
+            return (self.predict(terms, "list", gates, direction), list(cs))
         out = list(val)
         for rg in seq:
             imgs = rg.fwd if direction == "fwd" else rg.bwd
@@ -437,7 +457,7 @@ class CircWorld(StateWorld):
             elif c["obj"].forward_map is not None:
                 self.probes["forward_through_circuit_map"] += 1
         self.trans.add(hash(("fwd", kind, len(c["ref"]), c["compiled_any"], c["cls"])) & 0xFFFFFFFFFFFF)
-        self.states.add(hash(tuple(rm.pstr(p) for p in got) if kind != "state" else got.key()) & 0xFFFFFFFFFFFF)
+        self.states.add(hash(repr(got) if kind != "state" else got.key()) & 0xFFFFFFFFFFFF)
         return [kind, len(c["ref"])]
 
     def _raw(self, obj, kind):
@@ -445,6 +465,8 @@ class CircWorld(StateWorld):
             return ([int(v) for v in obj.g], int(obj.p) % 4)
         if kind in ("list", "map"):
             return (np.array(obj.gs).tolist(), (np.array(obj.ps) % 4).tolist())
+        if kind == "poly":
+            return (np.array(obj.gs).tolist(), (np.array(obj.ps) % 4).tolist(), [complex(c) for c in obj.cs])
         return None
 
     def _roundtrip(self, unit_fwd, unit_bwd, order, probe, ctx):
@@ -477,16 +499,17 @@ class CircWorld(StateWorld):
                 self.probes["roundtrip_through_nontrivial_image"] += 1
         self.oracle_steps += 1
         self.nontrivial = True
-        self.states.add(hash(tuple(rm.pstr(p) for p in before) if kind != "state" else before.key()) & 0xFFFFFFFFFFFF)
+        self.states.add(hash(repr(before) if kind != "state" else before.key()) & 0xFFFFFFFFFFFF)
         return kind
 
     def _a_roundtrip(self, op):
         c = self._get(op)
         unit = op["unit"]
         if unit == "circuit":
+            # a stale compiled circuit (gates added after compile) still has to round-trip:
+            # forward and backward are stale consistently, so no suspension here (unlike `fwd`)
             if c["stale"]:
-                self.probes["comparison_suspended(stale)"] += 1
-                raise Skip()
+                self.probes["roundtrip_on_stale_compiled_circuit"] += 1
             u = c["obj"]
             ctx = "circuit:%s:%s" % (c["cls"], "compiled" if getattr(u, "forward_map", None) is not None
                                      else ("layers" if c["compiled_any"] else "plain"))
@@ -497,8 +520,6 @@ class CircWorld(StateWorld):
             if op["layer"] >= len(layers):
                 raise Skip()
             u = layers[op["layer"]]
-            if c["stale"] and getattr(u, "forward_map", None) is not None:
-                raise Skip()
             ctx = "layer:%s" % ("compiled" if getattr(u, "forward_map", None) is not None else "plain")
         else:
             if op["gate"] >= len(c["gates"]):
